@@ -797,6 +797,11 @@ func (w *World) verifyFunc(con *Contract) (fr *FuncResult) {
 			e.entryVars[alias] = TV{s.regs[f.Params[j]], f.Params[j].Type()}
 		}
 	}
+	if con.IfaceRecvName != "" && len(f.Params) > 0 {
+		if _, taken := e.entryVars[con.IfaceRecvName]; !taken || con.IfaceRecvName != f.Params[0].Name() {
+			e.entryVars[con.IfaceRecvName] = TV{e.makeInterface(s, f.Params[0].Type(), s.regs[f.Params[0]]), con.IfaceRecvType}
+		}
+	}
 	for _, fv := range f.FreeVars {
 		s.regs[fv] = e.symbolic(s, fv.Type(), fv.Name())
 	}
